@@ -23,8 +23,8 @@ PROPS = {
             "thorough": [J("^vhC18_sort_n3$", samples=8, **SORT), J("^vhC18_(reader_c3|writer_n3)$", samples=8, **STDIO), J("^vhC18_template", preempt=1, samples=3, **TPL), J("^vhC18_(strconv_n3|format_n2)$", samples=3, **SCONV)], "bounds": {"sort_items": 3, "chunk_bytes": 3},
             "assumptions": ["sort.Slice / sort.SliceStable are contract stubs: every permutation sorted w.r.t. less is explored (stable: ties keep their order)",
                             "partial claim: sort plugin and stdio readers/writers only; strconv/regexp/time/template/base64/json/gob/csv wrappers are not encoded (their wrapped functions need concrete text)"]},
-    "C20": {"quick": [J("^vhC20_ulule_L2$", samples=4, **RLU), J("^vhC20_native(slow)?_n2$", samples=2, **RLN)],
-            "thorough": [J("^vhC20_ulule_L3$", samples=8, **RLU), J("^vhC20_native(slow)?_n3$", samples=2, **RLN)], "bounds": {"keys": 2, "quota": "1..2", "bursts": 2},
+    "C20": {"quick": [J("^vhC20_ulule_L2$", samples=4, **RLU), J("^vhC20_native(slow)?_n2$", samples=2, **RLN), J("^vhC20_nativeconc_n2$", preempt=2, samples=2, maxpaths=600000, **RLN)],
+            "thorough": [J("^vhC20_ulule_L3$", samples=8, **RLU), J("^vhC20_native(slow)?_n3$", samples=2, **RLN), J("^vhC20_nativeconc_n3$", preempt=2, samples=2, maxpaths=3000000, **RLN)], "bounds": {"keys": 2, "quota": "1..2", "bursts": 2},
             "assumptions": ["ulule: the third-party store is a harness-side per-key counter with a symbolic limit (single window) and an injectable error; the real limiter.Limiter.Get is executed",
                             "native: items of a burst arrive at one logical instant; a full window elapses between bursts; the quota bound for spans that straddle a window boundary is not asserted"]},
     "C19": {"quick": [J("^vhC19_(pipe|standalone|origin)_L2$", samples=4, **PROM), J("^vhC19_arity_L1$", samples=4, maxdepth=3000, maxsteps=2000000, **PROM)],
@@ -55,7 +55,7 @@ PROPS = {
                          J("^vhC10_conc_|^vhC05_conc_v2$|^vhC11_conc", preempt=1, races=True, only_kinds=["race", "crash"], samples=1, maxpaths=3000000)], "bounds": {}, "assumptions": []},
     "C15": {"quick": [J("^vhC15_.*_A2$", samples=4)], "thorough": [J("^vhC15_.*_A(2|3)$", samples=8)], "bounds": {}, "assumptions": []},
     "C16": {"quick": [J("^vhC16_.*2$", samples=2, timeshim=True)], "thorough": [J("^vhC16_(delay|interval|timeout|throttle).*3$|^vhC16_sample_n2$", samples=2, timeshim=True)], "bounds": {}, "assumptions": []},
-    "C10": {"quick": [J("^vhC10_seq_.*_K4$", samples=3), J("^vhC10_conc(via)?_", preempt=0, samples=1), J("^vhC10_conc_(behavior|unicast|async)", preempt=1, samples=1)], "thorough": [J("^vhC10_seq_.*_K5$", samples=6), J("^vhC10_conc(via)?_", preempt=0, samples=1), J("^vhC10_conc_", preempt=2, samples=1, maxpaths=3000000)],
+    "C10": {"quick": [J("^vhC10_seq_.*_K4$", samples=3), J("^vhC10_conc(via)?_", preempt=0, samples=1), J("^vhC10_conc_(behavior|unicast|async)|^vhC10_concsub_", preempt=1, samples=1)], "thorough": [J("^vhC10_seq_.*_K5$", samples=6), J("^vhC10_conc(via)?_", preempt=0, samples=1), J("^vhC10_conc_|^vhC10_concsub_", preempt=2, samples=1, maxpaths=3000000)],
             "bounds": {"ops_quick": 4, "ops_thorough": 5, "subscribers": 3}, "assumptions": []},
     "C04": {"quick": [J("^vhC04_(ref_L5|variants_L2|blocking_L2|chain_L2)$", samples=8)], "thorough": [J("^vhC04_(ref_L6|variants_L3|blocking_L3|chain_L3)$", samples=16, xcheck="z3-new", xrate=50)],
             "bounds": {"script_length_quick": 5, "script_length_thorough": 6}, "assumptions": []},
